@@ -60,7 +60,7 @@ def assert_faithful(ctx):
         c = cdb.get_class(lab)
         if cdb.empty_list[lab] is not None and bool(cdb.empty_list[lab]) != c02.truly_empty(c):
             raise Bad("cached emptiness of %r is %r, brute force says %r" % (c, cdb.empty_list[lab], c02.truly_empty(c)))
-    expected_keys = set()
+    general, two_way = set(), set()
     empty_rules = {}
     for start, ends, rule in ctx.adds:
         parent = cdb.get_class(start)
@@ -83,7 +83,14 @@ def assert_faithful(ctx):
             if c02.truly_empty(ch) and not rule.possibly_empty and not c02.truly_empty(parent):
                 raise Bad("%r (not possibly empty) has the empty child %r" % (rule.strategy, ch))
         kept = tuple(sorted(e for e, ch in zip(ends, kids) if not (rule.possibly_empty and c02.truly_empty(ch))))
-        expected_keys.add((start, kept))
+        if len(kept) == 1 and rule.is_two_way():
+            # a two-way single-child rule supersedes earlier one-way rules between the same two classes
+            general.discard((start, kept))
+            general.discard((kept[0], (start,)))
+            two_way.add((start, kept))
+        else:
+            general.add((start, kept))
+    expected_keys = general | two_way
     db = s.ruledb
     if isinstance(db, RuleDBBase):
         stored = set(db)
@@ -148,7 +155,7 @@ def on_shape(shape):
 
 
 def groups(tier):
-    opts = ["plain", "inferral", "symmetry", "factory", "factory2", "factory2-symmetry", "finite", "finite-ev", "k", "ku", "iterative"]
+    opts = ["plain", "inferral", "symmetry", "factory", "factory2", "factory2-symmetry", "finite", "finite-ev", "k", "ku", "iterative", "oneway", "two"]
     if tier == "thorough":
         opts += ["inferral-symmetry", "inferral-factory-finite", "k-inferral", "ku-factory", "kk"]
     return e2e.std_groups(tier, opts=opts, rng=False)
